@@ -205,7 +205,8 @@ def schemas() -> List[dict]:
         expect=lambda p: ("mul", p.atom("a"), ("div", A.lit(1), p.atom("b"))))
     # restate subtraction
     add("a - b -> a + -b (or an equivalent plus-negative form)", "RestateSubtractionRule", ("Subtract", a, b),
-        shape=r"^Add\(", src="restate_subtraction.md")
+        shape=r"^Add\(", src="restate_subtraction.md",
+        expect=lambda p: ("add", p.atom("a"), ("neg", p.atom("b"))))
     add("a + -c -> a - c", "RestateSubtractionRule", ("Add", a, C("c", "neg")), shape=r"^Subtract\(.*, Constant\)$",
         src="RestateSubtractionRule.get_type comments '+ -2'")
     add("a + -c x -> a - c x", "RestateSubtractionRule", ("Add", a, ("Multiply", C("c", "neg"), V("x"))),
